@@ -9,7 +9,7 @@
 (*             (moments of the truncated normal: m1 # 0 because the window *)
 (*             is asymmetric, m2 < 1 because it is truncated)              *)
 (*   slit L    (1/L) int_0^L f(sqrt(q^2+u^2)) du                           *)
-(*   slit W    (1/2W) int_-W^W f(|q+v|) dv              (q > W here)       *)
+(*   slit W    (1/2W) int_-W^W f(|q+v|) dv    (q > W, and q < W: folded)   *)
 (*   slit L,W  the double integral; resolution.py documents and uses a     *)
 (*             (2*30+1)-point rule in v, whose value is also given         *)
 (*   2-D       average over the elliptical Gaussian aligned with q,        *)
@@ -88,10 +88,15 @@ LExpect(coef, q, L) == Expect(coef, LAMBDA k : LMono(k, q, L))
 LWidth(q, L) == FSub(Hyp(q, L), q)
 LBound(coef, q, L, h) == FMul(FMul(KSlitL, FDiv(h, LWidth(q, L))), Scale(coef, q, Hyp(q, L)))
 
-(* Slit width: (1/2W) int_-W^W (q+v)^k dv, q > W *)
-WMono(k, q, W) == FDiv(FSub(PowI(FAdd(q, W), k + 1), PowI(FSub(q, W), k + 1)), FMul(FMul("2.0", W), FFromInt(k + 1)))
+(* Slit width: (1/2W) int_-W^W |q+v|^k dv.  q >= W: the window [q-W, q+W] stays positive;
+   q < W: the part below zero is reflected, the integrand covers [0, W-q] twice and [W-q, q+W] once *)
+WMono(k, q, W) ==
+    IF FLeq(W, q)
+    THEN FDiv(FSub(PowI(FAdd(q, W), k + 1), PowI(FSub(q, W), k + 1)), FMul(FMul("2.0", W), FFromInt(k + 1)))
+    ELSE FDiv(FAdd(PowI(FAdd(q, W), k + 1), PowI(FSub(W, q), k + 1)), FMul(FMul("2.0", W), FFromInt(k + 1)))
 WExpect(coef, q, W) == Expect(coef, LAMBDA k : WMono(k, q, W))
-WBound(coef, q, W, h) == FMul(FMul(KSlitW, FDiv(h, W)), Scale(coef, FSub(q, W), FAdd(q, W)))
+WLo(q, W) == IF FLeq(W, q) THEN FSub(q, W) ELSE Zero
+WBound(coef, q, W, h) == FMul(FMul(KSlitW, FDiv(h, W)), Scale(coef, WLo(q, W), FAdd(q, W)))
 
 (* Slit length and width: the double integral (even k) and the documented (2*NLEN+1)-point
    rule  (1/(2 NLEN + 1)) sum_{j=-NLEN}^{NLEN} LMono(k, q + j W/NLEN, L)  of slit_resolution *)
